@@ -397,13 +397,14 @@
 	}
 	/// a multi-line comment with a leading space, a blank line, `#` characters and a trailing space
 	const C_MULTI: &str = " lead\n\n#hash # x\ntrail ";
-	/// a class with everything: multi-line comment, 3 fields (two of one name), 4 methods (overloads, `<init>`, `<clinit>`), 3 parameters
+	/// a class with everything: multi-line comment, 4 fields (two of one name, one with non-ASCII names), 4 methods (overloads, `<init>`, `<clinit>`), 3 parameters
 	fn rich() -> MClass {
 		let mut c = bare();
 		c.comment = so(Some(C_MULTI));
 		fld(&mut c, "f", "I", Some("g"), None);
 		fld(&mut c, "f", "LA;", None, Some("one"));
 		fld(&mut c, "h", "[Lp/B;", Some("h2"), Some("fa\n fb"));
+		fld(&mut c, "\u{3b1}", "LA;", Some("\u{3b2}\u{20ac}"), Some("\u{3b3} # \u{3b4}"));
 		mth(&mut c, "m", "()V", Some("n"), None, &[]);
 		mth(&mut c, "m", "(I)V", None, None, &[(0, "x", None)]);
 		mth(&mut c, INIT, "(LA;I)V", Some(INIT), Some("ctor"), &[(2, "b", None), (1, "a", Some(" p1\n\n#p3 "))]);
@@ -553,6 +554,20 @@
 			expect_eq("independent parser on the written text", &m.norm(), &p)?;
 			let canon = render_stream(m, Style::Canon);
 			if w != canon { return Err(format!("the written text is not the sorted rendering of the content: got {w:?}, expected {canon:?}")); }
+			// write_one(file name) is the part of the stream that belongs to that file; names that start no file are refused
+			let q = build(m, false)?;
+			let files = expected_files(m, Style::Canon);
+			for (file, root) in roots_by_file(m) {
+				let mut v = Vec::new();
+				e2s(crate::enigma_file::write_one(&q, &file, &mut v)).map_err(|e| format!("write_one({file:?}) refused: {e}"))?;
+				if v != files[&format!("{file}.mapping")].as_bytes() { return Err(format!("write_one({file:?}) for root {root:?} wrote {:?}", String::from_utf8_lossy(&v))); }
+			}
+			for (k, c) in &m.classes {
+				let name = c.dst.clone().unwrap_or_else(|| k.clone());
+				if files.contains_key(&format!("{name}.mapping")) { continue; }
+				let mut v = Vec::new();
+				if crate::enigma_file::write_one(&q, &name, &mut v).is_ok() { return Err(format!("write_one({name:?}) wrote {:?} although {k:?} is nested in a class of the set", String::from_utf8_lossy(&v))); }
+			}
 			Ok(())
 		});
 	}
@@ -752,21 +767,30 @@
 	}
 	#[test]
 	#[allow(non_snake_case)]
-	fn every_class_is_written__shared_file_name() {
-		let mut t = Tally::new("every_class_is_written__shared_file_name");
-		let tmp = TempDir::new("every_class_is_written__shared_file_name");
+	fn stream_write_then_read__shared_file_name() {
+		let mut t = Tally::new("stream_write_then_read__shared_file_name");
 		for m in shared_file_name_sets() {
 			let d = m.describe();
 			t.at(d.as_bytes());
 			t.case(true);
-			// single stream
-			real(&mut t, &|| format!("single stream, {d}"), || {
+			real(&mut t, &|| d.clone(), || {
 				let w = wr(&build(&m, false)?).map_err(|e| format!("write refused: {e}"))?;
 				let back = rd(w.as_bytes()).map_err(|e| format!("read refused what write wrote: {e}; text {w:?}"))?;
 				expect_eq(&format!("read(write(M)) != M, written text {w:?}"), &m.norm(), &extract(&back)?)
 			});
-			// directory
-			real(&mut t, &|| format!("directory, {d}"), || {
+		}
+		t.finish();
+	}
+	#[test]
+	#[allow(non_snake_case)]
+	fn dir_roundtrip__shared_file_name() {
+		let mut t = Tally::new("dir_roundtrip__shared_file_name");
+		let tmp = TempDir::new("dir_roundtrip__shared_file_name");
+		for m in shared_file_name_sets() {
+			let d = m.describe();
+			t.at(d.as_bytes());
+			t.case(true);
+			real(&mut t, &|| d.clone(), || {
 				let d1 = tmp.sub("w1");
 				wr_dir(&build(&m, false)?, &d1).map_err(|e| format!("write refused: {e}"))?;
 				let files = list_files(&d1)?;
